@@ -908,6 +908,11 @@ func (x *Engine) writeSet(fr *Frame, li *loopInfo) (map[string]bool, map[string]
 	for k := range arb {
 		delete(freshOnly, k)
 	}
+	for k := range arb {
+		if _, ok := x.compSort[wrKey(k)]; ok && !strings.HasPrefix(k, "$") {
+			arb[wrKey(k)] = true // written(loc) is summarised together with the component it watches
+		}
+	}
 	return arb, freshOnly, all
 }
 
